@@ -565,6 +565,26 @@ func main() {
 			}
 		}
 	}
+	// sets too short for one message / batch header (and just long enough): io.ErrUnexpectedEOF and a closed Conn below
+	// the header size of the format, the usual early end of the batch from there on
+	for _, v := range connfake.OpByName("fetch").Versions {
+		for _, magic := range []int8{1, 2} {
+			if magic == 2 && v < 4 {
+				continue
+			}
+			for _, keep := range []int{1, 12, 16, 17, 25, 26, 27, 60, 61, 62} {
+				a := buildFetch(r, v, magic, 3, 1, 0, 0)
+				if keep >= len(a.sh.Set) {
+					continue
+				}
+				a.sh.Set = a.sh.Set[:keep]
+				w := &connfake.W{}
+				a.op.Build(v, w, r, a.sh)
+				a.body = w.B
+				emit(a, follower(a))
+			}
+		}
+	}
 	// ApiVersions as the follow-up operation (inside the main theorems since C11-D33): after every operation, with
 	// and without a broker-reported error in the first response
 	av := connfake.OpByName("apiVersions")
